@@ -9,6 +9,7 @@ import (
 	"github.com/freeconf/yang/fc"
 	"github.com/freeconf/yang/meta"
 	"github.com/freeconf/yang/node"
+	"github.com/freeconf/yang/nodeutil"
 	"verif/internal/eng"
 	"verif/internal/model"
 	"verif/internal/store"
@@ -31,6 +32,15 @@ type c12Scenario struct {
 	Op     string `json:"op"` // upsert insert update delete replace
 	Dir    string `json:"dir"`
 	S      string `json:"S,omitempty"`
+}
+
+func init() {
+	// the library's node combinator that fans edits out to two nodes takes part like any node
+	for _, name := range []string{"new-container", "existing-container", "list-entries", "at-container", "at-entry", "nested-list", "choice-switch-clear-leaf", "choice-switch-delete-container", "delete-container", "delete-entry", "delete-list", "replace-entry"} {
+		sc := c12ScenarioBy(name)
+		sc.Name = "tee/" + name // the target is a nodeutil.Tee over two recorded stores holding the same tree
+		c12Scenarios = append(c12Scenarios, sc)
+	}
 }
 
 var c12Scenarios = []c12Scenario{
@@ -135,7 +145,11 @@ func c12Exec(sc c12Scenario, faults []int) c12Run {
 		run.faults[k] = &sentinel{k}
 	}
 	tgt := store.NewRef(t)
-	b := node.NewBrowser(m, store.Wrap(tgt.Node(), log, "dst"))
+	var tgtNode node.Node = store.Wrap(tgt.Node(), log, "dst")
+	if strings.HasPrefix(sc.Name, "tee/") {
+		tgtNode = nodeutil.Tee{A: tgtNode, B: store.Wrap(store.NewRef(t.Clone()).Node(), log, "dst")}
+	}
+	b := node.NewBrowser(m, tgtNode)
 	ep := entryPoint{sc.Entry}
 	fr, msg, pan := eng.Recover(func() {
 		sel := b.Root()
